@@ -679,3 +679,19 @@ Section TornP.
     destruct (e_key e'); [reflexivity|discriminate].
   Qed.
 End TornP.
+
+(* one flipped bit in the header of an intact record makes the reader panic: value length 50
+   becomes a varint that runs on into the 5-byte expiry 0x65FFFFFF; truncated to uint32 it is
+   2^32 - 128 + 50, klen + vlen wraps to 22 < klen = 100 and  e.Key = buf[:h.klen]  is out of range *)
+Definition ex_hdr : entry := mkEntry (key_with_ts (repeat 107 92) 7) (repeat 118 50) 0 0 1711276031.
+Definition flip_bit7 (l : bytes) (i : nat) : bytes :=
+  firstn i l ++ N.lxor (nth i l 0) 128 :: skipn (S i) l.
+
+Lemma header_bitflip_panic_witness :
+  wf_plain ex_hdr /\
+  iterate false xs_id [] (encode_entry false xs_id [] ex_hdr 20) 20 = ([mkDel ex_hdr 20 (rec_size ex_hdr)], Done (20 + rec_size ex_hdr)) /\
+  iterate false xs_id [] (flip_bit7 (encode_entry false xs_id [] ex_hdr 20) 3) 20 = ([], Panic).
+Proof.
+  split; [|split; vm_compute; reflexivity].
+  unfold wf_plain. split; [wf_entry_tac|]. repeat split; vm_compute; congruence.
+Qed.
